@@ -350,6 +350,8 @@ def _noop(ip, st, args, kwargs):
 
 def concrete_items(ip, st, it):
     """Items of an iterable with a concrete spine, else None."""
+    if isinstance(it, tuple) and it and it[0] == "genexp":
+        return None
     if isinstance(it, (PyList, tuple)):
         return pylist_items(st, it)
     if isinstance(it, PyDict):
@@ -640,6 +642,9 @@ def _list(ip, st, args, kwargs):
     (v,) = args
     if isinstance(v, LazyMap):
         yield from list_of_map(ip, st, v)
+        return
+    if isinstance(v, tuple) and v and v[0] == "genexp":
+        yield from materialise(ip, st, v)
         return
     items = concrete_items(ip, st, v)
     if items is not None:
@@ -1352,8 +1357,26 @@ def _m_endswith(ip, st, recv, args, kwargs):
     yield st, as_value("bool", tm.SuffixOf(to_term(p), to_term(recv)))
 
 
+def materialise(ip, st, v):
+    """a generator expression consumed at once behaves like the list comprehension with the same clauses"""
+    if isinstance(v, tuple) and v and v[0] == "genexp":
+        node = v[1]
+        lc = ast.ListComp(elt=node.elt, generators=node.generators)
+        ast.copy_location(lc, node)
+        yield from ip.lib.listcomp(ip, st, lc)
+    else:
+        yield st, v
+
+
 @method("bytes", "join")
 def _m_bjoin(ip, st, recv, args, kwargs):
+    if isinstance(args[0], tuple) and args[0] and args[0][0] == "genexp":
+        for st1, lst in materialise(ip, st, args[0]):
+            if isinstance(lst, Raise):
+                yield st1, lst
+            else:
+                yield from _m_bjoin(ip, st1, recv, [lst], kwargs)
+        return
     items = concrete_items(ip, st, args[0])
     if items is None:
         raise Unsupported("bytes.join over a symbolic sequence")
@@ -1470,6 +1493,11 @@ def _m_sstrip(ip, st, recv, args, kwargs):
 
 @method("str", "join")
 def _m_join(ip, st, recv, args, kwargs):
+    if isinstance(args[0], tuple) and args[0] and args[0][0] == "genexp" and not is_sym(recv):
+        mats = list(materialise(ip, st, args[0]))
+        if len(mats) == 1 and not isinstance(mats[0][1], Raise) and concrete_items(ip, mats[0][0], mats[0][1]) is not None:
+            yield from _m_join(ip, mats[0][0], recv, [mats[0][1]], kwargs)
+            return
     items = concrete_items(ip, st, args[0])
     if items is None:
         if isinstance(args[0], LazyMap) or is_sym(args[0]):
